@@ -39,6 +39,7 @@ type FuncContract struct {
 	Trusted  bool
 	Guards   []string // locations guarded by the lock this function takes
 	Theory   bool     // include the theory axioms from the start
+	TheoryProps []string // when non-empty: the theory is only switched on for checks of these properties
 	NoCover  bool     // quantified navigator axioms: satisfiability (cover) queries do not terminate
 	NoPanic  bool     // no panic may leave this function
 	MayPanic bool     // callers must expect a panic
@@ -61,6 +62,7 @@ type Contracts struct {
 	Invs    map[string][]*Clause      // type name -> invariants over self
 	Defines map[string]*Define
 	Lemmas  []*Clause
+	FieldClass map[string]map[string]string // type -> field -> class
 	File    string
 }
 
@@ -147,6 +149,24 @@ func parseContracts(path string) (*Contracts, error) {
 			c.Invs[tn] = append(c.Invs[tn], cl)
 			last = cl
 			cur = nil
+		case "fields":
+			// fields T: config a b; state c; ...
+			i := strings.Index(rest, ":")
+			tn := strings.TrimSpace(rest[:i])
+			if c.FieldClass == nil {
+				c.FieldClass = map[string]map[string]string{}
+			}
+			c.FieldClass[tn] = map[string]string{}
+			for _, grp := range strings.Split(rest[i+1:], ";") {
+				w := strings.Fields(grp)
+				if len(w) == 0 {
+					continue
+				}
+				for _, f := range w[1:] {
+					c.FieldClass[tn][f] = w[0]
+				}
+			}
+			cur = nil
 		case "define":
 			i := strings.Index(rest, "=")
 			head := strings.TrimSpace(rest[:i])
@@ -200,9 +220,13 @@ func parseContracts(path string) (*Contracts, error) {
 					}
 				}
 			case "theory":
+				// theory stream|nav [for C04 C05]
 				cur.Theory = true
 				if strings.Contains(rest, "nav") {
 					cur.NoCover = true
+				}
+				if i := strings.Index(rest, " for "); i >= 0 {
+					cur.TheoryProps = strings.Fields(rest[i+5:])
 				}
 			case "tree-frame":
 				cur.TreeFrame = true
@@ -292,6 +316,17 @@ func parseLabel(s string) (label string, props []string, rest string) {
 		label = label[:i]
 	}
 	return
+}
+
+// exclusive: a clause tagged [label@C02!] is only assumed at call sites while property C02 is checked
+// (keeps the verification conditions of the other properties small; assuming less is always sound).
+func (c *Clause) exclusive() ([]string, bool) {
+	if len(c.Props) == 0 || !strings.HasSuffix(c.Props[len(c.Props)-1], "!") {
+		return nil, false
+	}
+	out := append([]string(nil), c.Props...)
+	out[len(out)-1] = strings.TrimSuffix(out[len(out)-1], "!")
+	return out, true
 }
 
 // parseSig parses "name(a, b) r1, r2" into its parts.
